@@ -59,21 +59,32 @@ class C05(Prop):
     table_groups = ['Sighash']
     theorems = ['BtcVerif.C05.' + t for t in (
         'agree_sighash_eq', 'preimage_eq_iff_agree', 'committed_part_changes_preimage', 'irregular_sighash',
-        'table_total', 'uncommitted_edit_agree', 'uncommitted_edit_preserves', 'changes_only_if_committed',
-        'committed_edit_changes', 'committed_edit_changes_digest', 'committed_field_edit_changes',
-        'committed_count_edit_changes', 'changedParts_spec', 'changes_iff_changedParts',
-        'own_input_always_committed', 'scriptSig_witness_never_committed', 'table_depends_on_mode_only',
-        'p2pk_verify', 'template_accepts_p2pk', 'template_rejects_wrong_key_p2pk', 'p2pkh_verify',
-        'template_accepts_p2pkh', 'template_rejects_wrong_key_p2pkh', 'template_rejects_other_key_p2pkh',
-        'matching_iff_greedy_reverse', 'multisig_verify', 'template_accepts_multisig',
-        'template_rejects_wrong_key_multisig', 'p2sh_p2pk_verify', 'p2sh_p2pkh_verify', 'p2sh_multisig_verify',
-        'sigCheck_uncommitted_edit', 'chkSig_uncommitted_edit', 'sigCheck_committed_edit',
-        'p2pk_uncommitted_edit_same_verdict', 'p2pkh_uncommitted_edit_same_verdict',
-        'multisig_uncommitted_edit_same_verdict', 'p2pk_committed_edit_rejects',
-        'p2pkh_committed_edit_rejects', 'chkSig_committed_edit', 'multisig_committed_edit_rejects',
-        'p2sh_p2pkh_uncommitted_edit_same_verdict', 'p2sh_multisig_uncommitted_edit_same_verdict',
-        'p2sh_p2pk_uncommitted_edit_same_verdict', 'p2sh_p2pk_committed_edit_rejects',
-        'p2sh_p2pkh_committed_edit_rejects', 'p2sh_multisig_committed_edit_rejects')]
+        'regular_sighash', 'table_total', 'uncommitted_edit_agree', 'uncommitted_edit_preserves',
+        'changes_only_if_committed', 'committed_edit_changes', 'committed_edit_changes_digest',
+        'committed_field_edit_changes', 'committed_count_edit_changes', 'changedParts_spec',
+        'changes_iff_changedParts', 'own_input_always_committed', 'scriptSig_witness_never_committed',
+        'table_depends_on_mode_only', 'p2pk_verify', 'template_accepts_p2pk',
+        'template_rejects_wrong_key_p2pk', 'p2pkh_verify', 'template_accepts_p2pkh',
+        'template_rejects_wrong_key_p2pkh', 'template_rejects_other_key_p2pkh', 'matching_iff_greedy_reverse',
+        'multisig_verify', 'template_accepts_multisig', 'template_rejects_wrong_key_multisig',
+        'p2sh_p2pk_verify', 'p2sh_p2pkh_verify', 'p2sh_multisig_verify', 'sigCheck_uncommitted_edit',
+        'chkSig_uncommitted_edit', 'sigCheck_committed_edit', 'p2pk_uncommitted_edit_same_verdict',
+        'p2pkh_uncommitted_edit_same_verdict', 'multisig_uncommitted_edit_same_verdict',
+        'p2pk_committed_edit_rejects', 'p2pkh_committed_edit_rejects', 'chkSig_committed_edit',
+        'multisig_committed_edit_rejects', 'p2sh_p2pkh_uncommitted_edit_same_verdict',
+        'p2sh_multisig_uncommitted_edit_same_verdict', 'p2sh_p2pk_uncommitted_edit_same_verdict',
+        'p2sh_p2pk_committed_edit_rejects', 'p2sh_p2pkh_committed_edit_rejects',
+        'p2sh_multisig_committed_edit_rejects', 'realSigCheck_eq_spec', 'template_script_codes_parse',
+        'p2pk_verify_real', 'p2pkh_verify_real', 'multisig_verify_real', 'p2sh_p2pk_verify_real',
+        'p2sh_p2pkh_verify_real', 'p2sh_multisig_verify_real', 'p2pk_real_eq_reference',
+        'p2pkh_real_eq_reference', 'multisig_real_eq_reference', 'p2sh_p2pk_real_eq_reference',
+        'p2sh_p2pkh_real_eq_reference', 'p2sh_multisig_real_eq_reference',
+        'p2pk_uncommitted_edit_same_verdict_real', 'p2pkh_uncommitted_edit_same_verdict_real',
+        'multisig_uncommitted_edit_same_verdict_real', 'p2sh_p2pk_uncommitted_edit_same_verdict_real',
+        'p2sh_p2pkh_uncommitted_edit_same_verdict_real', 'p2sh_multisig_uncommitted_edit_same_verdict_real',
+        'p2pk_committed_edit_rejects_real', 'p2pkh_committed_edit_rejects_real',
+        'multisig_committed_edit_rejects_real', 'p2sh_p2pk_committed_edit_rejects_real',
+        'p2sh_p2pkh_committed_edit_rejects_real', 'p2sh_multisig_committed_edit_rejects_real')]
     anchors = [('bitcoin/core/script.py', 'RawSignatureHash'),
                ('bitcoin/core/script.py', 'SignatureHash'),
                ('bitcoin/core/scripteval.py', '_CheckSig'),
@@ -88,20 +99,34 @@ class C05(Prop):
     trusted_base = ['Spec.Commit (parts, commitment table, edit catalogue) is my reading of interpreter.cpp SignatureHash '
                     '(SigVersion::BASE); Spec.Sighash.legacySighash is C03\'s reference (C03.raw_eq_spec: the library '
                     'algorithm equals it)',
-                    'Model.ScriptEval.verifyScript (C06) is the interpreter the driver runs; its signature checker here is '
-                    'Crypto.Secp256k1.verify + strict DER + SEC1 decoding over Spec.Sighash.legacySighash',
+                    'Model.ScriptEval.verifyScript (C06) is the interpreter the driver runs, in two contexts whose verdicts '
+                    'must coincide: txCtx realHashes ecdsaCheck (reference digest Spec.Sighash.legacySighash) and '
+                    'Real.realCtx (Model.Sighash.rawSignatureHash, the model of the library algorithm); '
+                    'Real.ecdsaCheck = Crypto.Secp256k1.verify + strict DER + SEC1 decoding',
                     'executable Lean ECDSA / SHA-256 / RIPEMD-160 are validated against OpenSSL / hashlib by every '
                     'verification compared in this run',
                     'btcmodel executable = compiled Model.* / Spec.* (Lean compiler)']
-    assumptions = ['CRYPTOGRAPHIC, explicit hypothesis never axiom: SHA-256d does not collide on the two hashed messages '
-                   '(hypothesis hcr of committed_edit_changes_digest) — needed to go from "the hashed messages differ" '
-                   '(proved) to "the digests differ"',
-                   'CRYPTOGRAPHIC, not a theorem: ECDSA correctness of the library signer (a signature made by the key '
-                   'verifies) and unforgeability (a signature does not verify for another digest / another key) — '
-                   'the acceptance theorems take "the oracle accepts signature j for key j" as hypothesis; the '
-                   '"must be rejected" half is established only by the correspondence run (impl = model = prediction)',
-                   'fields in wire range (Spec.Commit.WFc), script code <= MAX_SIZE, regular case (input idx exists; under '
-                   'SINGLE output idx exists) for committed_edit_changes; uncommitted_edit_preserves has no hypothesis',
+    assumptions = ['"A SIGNED INPUT IS ACCEPTED" IS NOT A THEOREM: that the library signer (OpenSSL ECDSA_sign, low-S DER) '
+                   'produces a signature the verifier accepts is the hypothesis `horacle` of the template_accepts_* '
+                   'theorems (ECDSA correctness; proving it for the Lean curve needs the group law). It is tied ONLY by '
+                   'the end-to-end run: every base case must be accepted by the real VerifyScript and by the model with '
+                   'the Lean ECDSA. What IS proved: verdict of the modelled VerifyScript on a template = '
+                   '"ecdsaCheck(signature, key, reference digest)" (Part 2, Part 4 for the model of RawSignatureHash)',
+                   'CRYPTOGRAPHIC, explicit hypothesis never axiom: SHA-256d does not collide on the two hashed messages '
+                   '(hypothesis hcr of committed_edit_changes_digest and of *_committed_edit_rejects) — needed to go from '
+                   '"the hashed messages differ" (proved) to "the digests differ"',
+                   'CRYPTOGRAPHIC, explicit hypothesis never axiom: hunf of *_committed_edit_rejects — the signature made '
+                   'for the old digest does not verify for the new digest of the edited transaction IF that digest is '
+                   'different (unforgeability for this one instance). NOT assumed: "a signature is valid for one digest '
+                   'only" (false for ECDSA: (r,s) valid for z is valid for -z-2rd mod n and for z+n < 2^256; audit F1)',
+                   'template_rejects_wrong_key_*: the hypothesis is that the oracle rejects (conclusion restated through '
+                   'the interpreter); that signatures of another key are rejected is established only by the '
+                   'end-to-end run, except template_rejects_other_key_p2pkh (different HASH160 => EvalScriptError)',
+                   'fields in wire range (Spec.Commit.WFc / Spec.Sighash.FieldsWF), script code <= MAX_SIZE, regular case '
+                   '(input idx exists; under SINGLE output idx exists) for committed_edit_changes; '
+                   'uncommitted_edit_preserves has no hypothesis. For SINGLE with idx >= |vout| the wallet form '
+                   'SignatureHash raises ValueError (the library does not sign); the harness signs the constant 1 '
+                   'returned by RawSignatureHash to exercise the consensus behaviour',
                    'prediction `differs` for an edit that moves the transaction into / out of the SIGHASH_SINGLE "return '
                    'one" case additionally assumes SHA-256d never yields the constant 1 (preimage resistance)']
     level = 'proof'
